@@ -23,9 +23,14 @@ func (interp *Interpreter) SingleStepInvoke(pc ProgramCounter) (ExitReason, Prog
 
 // (v.0.7.1 A.6, A.7) SingleStepStateTransition
 func (interp *Interpreter) SingleStepStateTransition(pc ProgramCounter) (ExitReason, ProgramCounter) {
-	// check program-counter exceed blob length
+	// Past the end of the blob the zero-extended code holds trap (A.4); it is charged like
+	// any other instruction.
 	if int(pc) >= len(interp.Program.InstructionData) {
-		return ExitPanic, pc
+		if interp.Gas < 1 {
+			return ExitOOG, pc
+		}
+		interp.Gas -= 1
+		return ExitPanic, 0
 	}
 
 	var exitReason ExitReason
